@@ -727,8 +727,12 @@ where
         self: &'a mut Pin<&mut Self>,
         cx: &mut Context<'_>,
     ) -> Poll<Option<Result<(), C::Error>>> {
-        while self.channel_pin_mut().poll_ready(cx)?.is_pending() {
+        if self.channel_pin_mut().poll_ready(cx)?.is_pending() {
+            // Flushing may free up capacity. If the channel is still not ready afterwards
+            // (readiness need not be tied to flushing), its poll_ready has registered the waker:
+            // return to the executor instead of retrying within this poll.
             ready!(self.channel_pin_mut().poll_flush(cx)?);
+            ready!(self.channel_pin_mut().poll_ready(cx)?);
         }
         Poll::Ready(Some(Ok(())))
     }
